@@ -35,6 +35,9 @@ type Solver struct {
 	TimeoutMs int
 	pendingPops int
 	Fallback bool
+	CrossEvery int
+	CrossChecked int
+	CrossDisagree int
 	FallbackQueries int
 	lastConj []*Term
 	lastViaFallback bool
@@ -394,6 +397,17 @@ func (s *Solver) check(a, b *Term, keep bool) (Result, error) {
 	}
 	s.lastConj = conj
 	s.lastViaFallback = false
+	if s.CrossEvery > 0 && err == nil && res != ResUnknown && s.Queries%s.CrossEvery == 0 {
+		// thorough tier: re-decide a sample of the queries on a second solver (cvc5, plain bit-vector mode)
+		r2, _, xerr := s.oneShotWith(conj, nil, false)
+		if xerr == nil && r2 != ResUnknown {
+			s.CrossChecked++
+			if r2 != res {
+				s.CrossDisagree++
+				s.Err = fmt.Errorf("solver disagreement on query %d: z3 %v, cvc5 %v", s.Queries, res, r2)
+			}
+		}
+	}
 	if res == ResUnknown && err == nil && s.Fallback {
 		// bit-blasting gave up (typically chains of 64-bit additions/comparisons on the symbolic clock):
 		// re-decide the same query with cvc5's integer encoding of bit-vectors (keeps mod-2^k semantics)
@@ -631,6 +645,10 @@ func (p *sparser) value() (uint64, error) {
 // oneShot decides the conjunction conj with a fresh cvc5 process using the integer encoding of bit-vectors
 // (--solve-bv-as-int=sum) and, when sat, evaluates the terms in eval.
 func (s *Solver) oneShot(conj []*Term, eval []*Term) (Result, []uint64, error) {
+	return s.oneShotWith(conj, eval, true)
+}
+
+func (s *Solver) oneShotWith(conj []*Term, eval []*Term, bvAsInt bool) (Result, []uint64, error) {
 	var sb strings.Builder
 	sb.WriteString("(set-logic ALL)\n")
 	emitted := map[int32]bool{}
@@ -711,7 +729,10 @@ func (s *Solver) oneShot(conj []*Term, eval []*Term) (Result, []uint64, error) {
 		}
 		sb.WriteString("))\n")
 	}
-	args := []string{"--lang=smt2", "--solve-bv-as-int=sum", fmt.Sprintf("--tlimit=%d", 120000)}
+	args := []string{"--lang=smt2", fmt.Sprintf("--tlimit=%d", 120000)}
+	if bvAsInt {
+		args = append(args, "--solve-bv-as-int=sum")
+	}
 	if len(eval) > 0 {
 		args = append(args, "--produce-models")
 	}
